@@ -24,6 +24,7 @@ NT_CUT = SPIN_CUT + ['allocate_long_table', '25extend_table_if_necessaryERPSt6at
 UNITS = {
   'seg': dict(wrapper='w_seg.cpp', mode='seq', selftest=True, cut=['13internal_growI']),
 }
+UNITS['seqg'] = dict(wrapper='w_grow.cpp', mode='seq', cut=SPIN_CUT)
 KIND = {'gb': 0, 'pb': 1, 'gtal': 2}
 def unit(kinds, table):
     """thread unit for a tuple of operation kinds; table=False: scenarios stay below index 8 (NT_CUT), True: real table extension"""
@@ -54,7 +55,15 @@ HARNESSES = [
   dict(name='gtal_claim', unit='seg', harness='h_seg.c', scenarios=[{'PART': 5}], cbmc=['--unwind', '70'],
        desc='grow_to_at_least range claim', bounds={'size,n': '0..2^63'}),
 ]
+def seqops(name, ops, maxd, pres, **kw):
+    d = {'SEQ': 1, 'NT': len(ops), 'MAXD': maxd, 'memset': 'vp_memset', 'PRECAP': 64, 'ECAP': 1, 'EPT': 6, 'PMODE': 0}
+    for i, k in enumerate(ops): d['K' + 'ABC'[i]] = KIND[k]
+    h = dict(name=name, unit='seqg', harness='h_grow.c', defines=d, scenarios=[{'PRE': p} for p in pres], cbmc=['--unwind', '66', '--object-bits', '10'], timeout=900,
+             desc='single thread: %s with symbolic deltas 0..%d / n; addresses stable after every call, ranges tile, values, destructor releases everything' % (', '.join(ops), maxd),
+             bounds={'operations': list(ops), 'delta': '0..%d' % maxd, 'pre-grown sizes': list(pres)})
+    h.update(kw); return h
 HARNESSES += [
+  seqops('seq_gb_gb', ('gb', 'gb'), 9, (0, 3)),
   grow('pb2', ('pb', 'pb'), False, 2, [sc2(p, 0, 2, **({'PROBE': 0} if p else {})) for p in (0, 1, 2, 3)]),
   grow('pb_gb', ('pb', 'gb'), False, 2, [sc2(p, m, 4, **({'PROBE': 0} if p else {})) for p, m in ((0, 0), (1, 0), (3, 0), (3, 1))], tiers=('thorough',), timeout=3600),
   grow('pb2_table', ('pb', 'pb'), True, 1, [sc2(7, 0, 2, PROBE=0, TABW=8)]),
